@@ -60,6 +60,23 @@ func zzSetup(db *DB, kind int) {
 		if kind == 0 {
 			return b.Put([]byte("k00"), []byte("v"))
 		}
+		if kind == 4 {
+			// only nested buckets, enough of them to span several leaves; every third one is paged
+			for i := 0; i < 24; i++ {
+				nb, err := b.CreateBucket([]byte{'k', byte('0' + i/10), byte('0' + i%10)})
+				if err != nil {
+					return err
+				}
+				v := []byte("x")
+				if i%3 == 2 {
+					v = zzVal(db.pageSize*3/10, 'x')
+				}
+				if err := nb.Put([]byte("i"), v); err != nil {
+					return err
+				}
+			}
+			return nil
+		}
 		vs := db.pageSize * 3 / 10
 		for i, k := range zzSetupKeys {
 			if err := b.Put([]byte(k), zzVal(vs, byte('a'+i))); err != nil {
